@@ -25,6 +25,10 @@ import (
 
 func init() { families["opt"] = runOptFamily }
 
+type writerFunc func([]byte) (int, error)
+
+func (f writerFunc) Write(p []byte) (int, error) { return f(p) }
+
 // frameBuf records every Write call of the container (one per frame).
 type frameBuf struct {
 	mu     sync.Mutex
@@ -108,7 +112,7 @@ func runOptFamily(c *runCtx) error {
 				hangErr = fmt.Errorf("case %d: hang: wait", k)
 			}
 		}
-		switch kind := r.intn(9); kind {
+		switch kind := r.intn(10); kind {
 		case 0, 1, 2: // what a finished bar shows
 			name = "final"
 			which := r.intn(5)  // 0 OnComplete(msg) 1 ClearOnComplete 2 OnAbort(msg) 3 ClearOnAbort 4 both messages
@@ -389,6 +393,52 @@ func runOptFamily(c *runCtx) error {
 			}
 			b.Abort(true)
 			waitP(o.p)
+		case 8: // a container that was not asked to refresh, on an output that is not a terminal, draws nothing at all
+			name = "norefresh"
+			var buf bytes.Buffer
+			var mu sync.Mutex
+			w := writerFunc(func(p []byte) (int, error) { mu.Lock(); defer mu.Unlock(); return buf.Write(p) })
+			opts := []mpb.ContainerOption{mpb.WithOutput(w), mpb.WithWidth(20 + r.intn(40))}
+			if r.bool() {
+				opts = append(opts, mpb.PopCompletedMode())
+			}
+			p := mpb.New(opts...)
+			n := 1 + r.intn(4)
+			cases.WriteString(fmt.Sprintf("R %d %d\n", k, n))
+			var bs []*mpb.Bar
+			for i := 0; i < n; i++ {
+				bo := []mpb.BarOption{mpb.PrependDecorators(decor.Name(fmt.Sprintf("ROW%d", i))), mpb.AppendDecorators(decor.Percentage())}
+				if r.bool() {
+					bo = append(bo, mpb.BarExtender(mpb.BarFillerFunc(func(w io.Writer, _ decor.Statistics) error {
+						_, err := io.WriteString(w, "EXT\n")
+						return err
+					}), false))
+				}
+				if r.chance(1, 3) {
+					bo = append(bo, mpb.BarRemoveOnComplete())
+				}
+				bs = append(bs, p.AddBar(int64(3+r.intn(5)), bo...))
+			}
+			for _, b := range bs {
+				b.Increment()
+				if r.bool() {
+					b.SetPriority(r.intn(5))
+				}
+			}
+			for i, b := range bs {
+				if i%2 == 0 {
+					b.IncrBy(10)
+				} else {
+					b.Abort(r.bool())
+				}
+			}
+			waitP(p)
+			mu.Lock()
+			out := buf.String()
+			mu.Unlock()
+			if strings.Contains(out, "\x1b") || strings.Contains(out, "ROW") || strings.Contains(out, "EXT") || strings.Contains(out, "%") {
+				fail("a container without refresh on a non-terminal output wrote %q: it must not draw bars or cursor controls", out)
+			}
 		default: // WithWaitGroup: Wait first waits for the user's group
 			name = "waitgroup"
 			var wg sync.WaitGroup
@@ -419,6 +469,5 @@ func runOptFamily(c *runCtx) error {
 		}
 		c.count(name)
 	}
-	_ = bytes.MinRead
 	return hangErr
 }
